@@ -649,6 +649,42 @@ Fixpoint abstract_funcs (fuel : nat) (cs : list cls) (t : ty) : list (func * lis
       end
   end.
 
+(* ---------- type variables in scope (code 24) ----------
+   every type variable occurring in a type attribute of a node must be a type parameter of an
+   enclosing class or function declaration (bounds may mention the other parameters) *)
+Fixpoint tvars_of (t : ty) : list nat :=
+  match t with
+  | TVar x _ None => [x]
+  | TVar x _ (Some b) => x :: tvars_of b
+  | TApp _ l => flat_map tvars_of l
+  | TWild _ (Some b) => tvars_of b
+  | _ => []
+  end.
+
+Definition declared_tvars (n : node) : list nat :=
+  if Nat.eqb (kind_of n) kClassDecl then flat_map (fun t => match t with TVar x _ _ => [x] | _ => [] end) (present (tys_of n))
+  else if Nat.eqb (kind_of n) kFuncDecl then
+    flat_map (fun t => match t with TVar x _ _ => [x] | _ => [] end) (present (skipn 2 (tys_of n)))
+  else [].
+
+Fixpoint tv_scope (scope : list nat) (path : list nat) (n : node) {struct n} : list err :=
+  match n with
+  | N k nm num fl tys kids =>
+      let scope' := declared_tvars n ++ scope in
+      (if forallb (fun x => existsb (Nat.eqb x) scope') (flat_map tvars_of (present tys)) then [] else [mkerr path 24]) ++
+      (fix go (i : nat) (l : list node) : list err :=
+         match l with
+         | [] => []
+         | c :: l' => tv_scope scope' (path ++ [i]) c ++ go (S i) l'
+         end) 0 kids
+  end.
+
+Definition tv_scope_all (p : node) : list err :=
+  match p with N _ _ _ _ _ kids =>
+    (fix go (i : nat) (l : list node) : list err :=
+       match l with [] => [] | c :: l' => tv_scope [] [i] c ++ go (S i) l' end) 0 kids
+  end.
+
 Definition check_program (infer strict : bool) (L : lang) (cn : list (nat * nat)) (bclasses : ctable) (bt : btable) (arr : option nat)
            (kw : list nat) (p : node) : list err :=
   let cs := classes_of cn p in
@@ -712,7 +748,7 @@ Definition check_program (infer strict : bool) (L : lang) (cn : list (nat * nat)
            (if existsb (Nat.eqb (name_of_node d)) kw then [mkerr ([i]) 22] else [])
        | _ => []
        end)
-    (combine (seq 0 (length (kids_of p))) (kids_of p)).
+    (combine (seq 0 (length (kids_of p))) (kids_of p)) ++ tv_scope_all p.
 
 (* the errors that belong to one property *)
 Definition only_codes (codes : list nat) (l : list err) : list err :=
